@@ -10,10 +10,10 @@ LEVEL = "exploration"
 N = {"quick": 100000, "thorough": 2000000}
 RULE = ("seeded instance x filter x op list interleaving dispatches, rejected requests and resets with subscription "
         "churn (construct singleton / non-singleton recording observers subscribed or not, unsubscribe, re-subscribe, "
-        "duplicate singleton, create_or_get_observer with conditions, HistoryObserver); the global callback log must "
+        "duplicate singleton, a user refinement of a singleton class, create_or_get_observer with conditions, HistoryObserver, UnscheduledOperationsObserver, non-singleton DurationObservers, refused feature-observer requests); the global callback log must "
         "equal the model's (one update per subscriber in subscription order, seen post-state inside the callback); "
         "non-trivial: >= 3 dispatches and >= 2 churn ops; distinct = distinct (config, op list) hashes")
-REAL = ["Dispatcher.dispatch/reset/subscribe/unsubscribe/create_or_get_observer", "DispatcherObserver base (singleton guard)", "HistoryObserver"]
+REAL = ["Dispatcher.dispatch/reset/subscribe/unsubscribe/create_or_get_observer", "DispatcherObserver base (singleton guard)", "HistoryObserver", "UnscheduledOperationsObserver", "DurationObserver"]
 STUB = ["recording observer subclasses defined by the harness (peers)"]
 ASSUMPTIONS = ["re-entrant (un)subscription from inside update() and subscribing one object twice through raw subscribe() are out of scope"]
 
